@@ -40,6 +40,16 @@ def run(ctx):
             ctx.violation("C12:hostile:" + r["stacking"], r)
         else:
             ctx.traces_ok += 1
+    # faults that overlap in time on different client connections (FaultCases.tla, Concurrent): each client gets its own response
+    out = ctx.run_vh(binp, ["c12-conc", "--arg", "n=%d" % (80 if q else 600)], timeout=3000)
+    out, crashed = ctx.nocrash(out, "C12:crash:concurrent-faults")
+    for r in out:
+        ctx.evaluations += r.get("requests", 0)
+        ctx.nontrivial.add("conc:%d" % r["client"])
+        if not r["ok"]:
+            ctx.violation("C12:mixed-with-another" if "text of the exchange" in r["why"] or "own target" in r["why"] else "C12:concurrent-faults", r)
+        else:
+            ctx.traces_ok += 1
 
 
 def replay(ctx, path):
